@@ -298,6 +298,9 @@ FIXED = [
     ("nested-fragment-conflict", "{ ...Fa } fragment Fa on Query { ...Fbb a } fragment Fbb on Query { ...Fccc } fragment Fccc on Query { a: s }", {}),
     ("abstract-spreads", "{ n { id ... on Ob { a b { id } } ... on Other { c } ...NF } u { __typename ... on Node { id } } } fragment NF on Node { id ... on Ob { a } }", {}),
     ("typename-only", "{ __typename }", {}),
+    ("V8-list-literal-at-directive-condition", "{ a @include(if: [true]) }", {}),
+    ("V8-list-literal-with-variable", "query($b: Boolean!) { s @skip(if: [$b]) }", {"b": False}),
+    ("list-literal-at-scalar-argument", "{ a(i: [1]) }", {}),
     ("seen-fragments-quirk", "{ ... on Query { ...F } ...F n { ... { ...G } ...G } } fragment F on Query { s a } fragment G on Node { id }", {}),
     ("meta-on-non-root", "{ b { __schema { types { name } } } }", {}),
     ("same-key-object-then-abstract", "{ n { ... on Ob { k: a } ... on Node { k: id } } }", {}),
